@@ -47,6 +47,10 @@ def gen_server(c, P):
             break
         a = alphabet[k]
         desc.append(a)
+        if S.get('close_is_last') and desc[:-1] and desc[-2].startswith('close'):
+            # a conforming server sends nothing after its Close (what a client does with such frames is a don't-care region)
+            desc.pop()
+            break
         if a == 'text':
             b = c.byte('t%d' % i)
             if c.concrete is None:
@@ -85,6 +89,10 @@ def gen_server(c, P):
         elif a == 'trickle':
             # event-less bytes: a non-final text fragment of 300 bytes (16-bit length form) that arrives byte by byte and never completes
             items += [0x01, 0x7E, 0x01, 0x2C] + [0x61] * 280
+        elif a == 'frag_open':
+            # the first fragment of a data message that the server never finishes (RFC 6455 5.4/5.5: control frames - Close included -
+            # may be injected in the middle of a fragmented message)
+            items += frame(2, [c.byte('fo%d' % i)], fin=False)
         elif a == 'frag':
             items += frame(2, [c.byte('f%da' % i)], fin=False) + frame(0, [c.byte('f%db' % i)])
         else:
